@@ -30,7 +30,7 @@ def FieldName.toks : FieldName → Toks
   | .index n => tq cs (ToString.toString n)            -- `syn::Index::from(n)`: call-site literal
 
 def Name.toks : Name → Toks
-  | .field f => f.toks
+  | .field (.ident i) => [⟨.plain ("__assert_struct_field_" ++ i.name), i.sp⟩]   -- keeps the field's span
   | n => tq cs n.render                                -- `format_ident!` / `quote!`: call site
 
 def Pre.toks : Pre → Toks
@@ -105,7 +105,8 @@ def Code.toks (value : Toks) : Code → Toks
       tq sp "} , _ = > {" ++ push.toks value ++ tq sp "} }"
   | .structNamed sp v path fields rest body push =>
     tq sp "# [ allow ( unreachable_patterns ) ] match &" ++ v.toks value ++ tq sp "{" ++ path.toks ++
-      tq sp "{" ++ sepBy (tq sp ",") (fields.map FieldName.toks) ++ (if rest then tq cs ", . ." else []) ++
+      tq sp "{" ++ sepBy (tq sp ",") (fields.map fun f => f.toks ++ tq sp ":" ++ (Name.field f).toks) ++
+      (if rest then tq cs ", . ." else []) ++
       tq sp "} = > {" ++ body.toks value ++ tq sp "} , _ = > {" ++ push.toks value ++ tq sp "} }"
   | .tuple v binders body =>
     tq cs "# [ allow ( unreachable_patterns ) ] match &" ++ v.toks value ++ tq cs "{ (" ++
@@ -119,9 +120,9 @@ def Code.toks (value : Toks) : Code → Toks
       sepBy (tq cs ",") (parts.map Binder.toks) ++ tq cs "] = > {" ++ body.toks value ++
       tq cs "} _ = > {" ++ push.toks value ++ tq cs "} }"
   | .regex sp v pat push =>
-    tq sp "{ use : : assert_struct : : Like ; let re =" ++ supportPath sp ++ tq sp "Regex : : new (" ++
+    tq sp "{ use : : assert_struct : : Like ; let __assert_struct_re =" ++ supportPath sp ++ tq sp "Regex : : new (" ++
       tstr cs pat ++ tq sp ") . expect ( concat ! (" ++ tstr sp "Invalid regex pattern: " ++ tq sp "," ++
-      tstr cs pat ++ tq sp ") ) ; if ! (" ++ v.toks value ++ tq sp ") . like ( & re ) {" ++
+      tstr cs pat ++ tq sp ") ) ; if ! (" ++ v.toks value ++ tq sp ") . like ( & __assert_struct_re ) {" ++
       push.toks value ++ tq sp "} }"
   | .like sp v e push =>
     tq sp "{ use : : assert_struct : : Like ; if ! (" ++ v.toks value ++ tq sp ") . like ( &" ++ e.toks ++
